@@ -1,0 +1,114 @@
+// Copyright JAMF Software, LLC
+
+//go:build verif
+
+package fsm
+
+import (
+	"encoding/base64"
+	"encoding/json"
+	"os"
+	"sync"
+
+	"github.com/jamf/regatta/storage/table/key"
+	sm "github.com/lni/dragonboat/v4/statemachine"
+)
+
+// Optional trace of every table state machine of the process, for the verification harness: when the
+// environment variable VERIF_FSM_TRACE names a file, one JSON line is appended to it after every Open,
+// Update, RecoverFromSnapshot and before every Close (raw command and result bytes, and for the state
+// events the complete content with both indices). This is how runs of the repository's own tests are
+// checked against the specification. Build tag verif only; without the variable nothing happens.
+var verifTrace struct {
+	mu   sync.Mutex
+	once sync.Once
+	f    *os.File
+	ids  map[*FSM]int
+	seq  int
+}
+
+func verifTraceFile() *os.File {
+	verifTrace.once.Do(func() {
+		if path := os.Getenv("VERIF_FSM_TRACE"); path != "" {
+			if f, err := os.OpenFile(path, os.O_CREATE|os.O_APPEND|os.O_WRONLY, 0o644); err == nil {
+				verifTrace.f = f
+				verifTrace.ids = map[*FSM]int{}
+			}
+		}
+	})
+	return verifTrace.f
+}
+
+func verifEmit(p *FSM, ev map[string]any) {
+	verifTrace.mu.Lock()
+	defer verifTrace.mu.Unlock()
+	id, ok := verifTrace.ids[p]
+	if !ok {
+		id = len(verifTrace.ids) + 1
+		verifTrace.ids[p] = id
+	}
+	verifTrace.seq++
+	ev["pid"], ev["inst"], ev["seq"], ev["table"], ev["shard"], ev["replica"] = os.Getpid(), id, verifTrace.seq, p.tableName, p.clusterID, p.nodeID
+	if b, err := json.Marshal(ev); err == nil {
+		_, _ = verifTrace.f.Write(append(b, '\n'))
+	}
+}
+
+// verifState records the complete state of the table (after Open / RecoverFromSnapshot, before Close).
+func verifState(what string, p *FSM) {
+	if verifTraceFile() == nil {
+		return
+	}
+	defer func() { _ = recover() }() // a state machine that is already closed has no state to show
+	db := p.pebble.Load()
+	if db == nil {
+		return
+	}
+	snap := db.NewSnapshot()
+	defer snap.Close()
+	idx, err1 := readLocalIndex(snap, sysLocalIndex)
+	lidx, err2 := readLocalIndex(snap, sysLeaderIndex)
+	if err1 != nil || err2 != nil {
+		return
+	}
+	type pair struct {
+		K string `json:"k"`
+		V string `json:"v"`
+	}
+	kvs := []pair{}
+	it := snap.NewIter(nil)
+	defer it.Close()
+	for it.First(); it.Valid(); it.Next() {
+		k, err := key.DecodeBytes(it.Key())
+		if err != nil {
+			return
+		}
+		if k.KeyType == key.TypeUser {
+			kvs = append(kvs, pair{base64.StdEncoding.EncodeToString(k.Key), base64.StdEncoding.EncodeToString(it.Value())})
+		}
+	}
+	verifEmit(p, map[string]any{"ev": what, "idx": idx, "lidx": lidx, "kvs": kvs})
+}
+
+// verifUpdated records one successful Update call: the entries with their results.
+func verifUpdated(p *FSM, updates []sm.Entry) {
+	if verifTraceFile() == nil {
+		return
+	}
+	type ent struct {
+		I    uint64 `json:"i"`
+		Cmd  string `json:"cmd"`
+		Val  uint64 `json:"val"`
+		Data string `json:"data"`
+	}
+	ents := make([]ent, len(updates))
+	for i, u := range updates {
+		ents[i] = ent{u.Index, base64.StdEncoding.EncodeToString(u.Cmd), u.Result.Value, base64.StdEncoding.EncodeToString(u.Result.Data)}
+	}
+	ev := map[string]any{"ev": "update", "ents": ents}
+	if db := p.pebble.Load(); db != nil {
+		ev["idx"], _ = readLocalIndex(db, sysLocalIndex)
+		ev["lidx"], _ = readLocalIndex(db, sysLeaderIndex)
+	}
+	verifEmit(p, ev)
+}
